@@ -1,31 +1,17 @@
 """C17 — bit, varint and buffer primitives round-trip every value."""
 import vcheck as V
 LEVEL = "proof"
+PROP_FILE = "Properties_C17.v"
+RULE = ("cases = varint/zig-zag/scalar encodes (exhaustive 8-bit; 16-bit exhaustive in thorough, every 7th in quick; boundary-biased "
+        "32/64-bit) and decodes of arbitrary continuation-heavy byte strings; a case is distinct by its text "
+        "(kind+arguments+result); every case encodes or decodes one value/byte string, so all count as non-trivial")
+
+def corr_runs(ctx):
+    return [dict(tag="h_C17", harness="C17", driver="C17", args=[ctx.tier, ctx.seed],
+                 needs_vo=["Model/Varint.vo", "Base/DriverSupport.vo"])]
 
 def run(ctx):
-    lib = V.build_repo(ctx, "O1")
-    ctx.say("repo built:", lib)
-    proof_ok = V.coq_check_properties(ctx, "Properties_C17.v")
-    ctx.say("proofs:", ctx.proof["discharged"], "/", ctx.proof["obligations"], "ok" if proof_ok else "BROKEN")
-    drv = V.build_driver(ctx, "C17", needs_vo=["Model/Varint.vo", "Base/DriverSupport.vo"])
-    h = V.build_harness(ctx, "C17", lib)
-    n, mism, fails, cases = V.run_cases(ctx, h, drv, [ctx.tier, ctx.seed], "main")
-    ctx.say("correspondence: %d cases, %d disagreements, %d direct failures" % (n, len(mism), len(fails)))
-    ctx.cov.update({
-        "evaluations": n,
-        "distinct_nontrivial": V.distinct_count(cases),
-        "traces_validated_against_impl": n,
-        "rule": "cases = varint/zig-zag/scalar encodes (exhaustive 8-bit, 16-bit exhaustive in thorough, boundary-biased 32/64-bit) "
-                "and decodes of arbitrary continuation-heavy byte strings; a case is distinct by its text (kind+arguments+result); "
-                "all are non-trivial (each exercises encode or decode of one value/byte string)",
-        "samples": V.sample_lines(cases, 8),
-        "kinds": V.kind_histogram(cases),
-        "disagreements": len(mism),
-    })
-    V.standard_decide(ctx, proof_ok, [("h_C17", n, mism, cases)], [("h_C17", l, t) for (l, t) in fails])
+    V.standard_run(ctx, __import__(__name__))
 
 def replay(ctx, path):
-    import json
-    r = json.load(open(path))
-    print(json.dumps(r, indent=1))
-    return 0
+    return V.standard_replay(ctx, __import__(__name__), path)
